@@ -314,6 +314,28 @@ mod verif_driver_redeemers {
                 witness("c08_cardano/compile_redeemers#postcondition", "compile_redeemers", format!("{} class=two-redeemers-for-one-policy", describe(&c)), format!("Ok with {got:?}: one of the two redeemers is gone"), "an error: the policy can be given one redeemer only");
             }
         }
+        // ---- a mint block whose amount is a SUM over two policies (reduced by the real reducer, which lists the classes in the
+        // order a hash map yields them) compiles to the same redeemers every time ----
+        {
+            use tx3_tir::reduce::Apply as _;
+            let build = || -> Result<BTreeMap<(u8, u32), i128>, String> {
+                let sum = tir::Expression::EvalBuiltIn(Box::new(tir::BuiltInOp::Add(tir::Expression::Assets(vec![token(0xaa, 1)]), tir::Expression::Assets(vec![token(0xbb, 1)]))));
+                let amount = sum.reduce().map_err(|e| e.to_string())?;
+                let mut tx = empty_tx();
+                tx.inputs.push(input_block("in0", &[(0x11, 0)], tir::Expression::None));
+                tx.mints.push(tir::Mint { amount, redeemer: num(7) });
+                produced(&tx)
+            };
+            let first = build();
+            for round in 0..40 {
+                n += 1;
+                let again = build();
+                if again != first {
+                    witness("c10_cardano/compile_redeemers#reproducible", "compile_redeemers", format!("a mint block over two policies (0xaa + 0xbb) with one redeemer, reduced and compiled again (round {round}) class=mint-block-over-two-policies"), format!("{again:?} after {first:?}"), "the same redeemers every time the same template is reduced and compiled");
+                    break;
+                }
+            }
+        }
         // ---- the DATA of a redeemer is the template's expression: a field-less case other than the first keeps its constructor
         // index (it is not the unit value), on every purpose ----
         for ctor in [0usize, 1, 2, 7] {
